@@ -22,9 +22,10 @@ VARIABLES have,      \* have[r]: bugs with a local ref
           indexed,   \* indexed[r]: bugs the search index of r has a document for
           fresh,     \* fresh[r]: bugs whose excerpt, index document and loaded instance (if any) reflect the git data
           size,      \* size[r]: maximum number of loaded entities
+          made,      \* number of bugs created so far (bug numbers are never reused, also after a removal)
           res
 
-vars == <<have, trk, hub, hubnew, staged, listed, indexed, fresh, size, res>>
+vars == <<have, trk, hub, hubnew, staged, listed, indexed, fresh, size, made, res>>
 Bugs == 1..NBug
 
 Init ==
@@ -33,9 +34,10 @@ Init ==
   /\ staged = [r \in Replica |-> {}]
   /\ listed = [r \in Replica |-> {}] /\ indexed = [r \in Replica |-> {}] /\ fresh = [r \in Replica |-> {}]
   /\ size = [r \in Replica |-> MaxSize]
+  /\ made = 0
   /\ res = "none"
 
-NextBug == Cardinality(UNION {have[r] : r \in Replica} \cup hub \cup UNION {trk[r] : r \in Replica}) + 1
+NextBug == made + 1
 
 Quiescent(r) == staged[r] = {}
 
@@ -47,6 +49,7 @@ CNew(r) ==
      /\ listed' = [listed EXCEPT ![r] = @ \cup {b}]
      /\ indexed' = [indexed EXCEPT ![r] = @ \cup {b}]
      /\ fresh' = [fresh EXCEPT ![r] = @ \cup {b}]
+  /\ made' = made + 1
   /\ res' = "new"
   /\ UNCHANGED <<trk, hub, hubnew, staged, size>>
 
@@ -55,7 +58,7 @@ CEdit(r, b) ==
   /\ b \in have[r]
   /\ staged' = [staged EXCEPT ![r] = @ \cup {b}]
   /\ res' = "edit"
-  /\ UNCHANGED <<have, trk, hub, hubnew, listed, indexed, fresh, size>>
+  /\ UNCHANGED <<have, trk, hub, hubnew, listed, indexed, fresh, size, made>>
 
 (* commit: git catches up with the instance; other replicas now lag behind if they had merged this bug *)
 CCommit(r, b) ==
@@ -63,14 +66,14 @@ CCommit(r, b) ==
   /\ staged' = [staged EXCEPT ![r] = @ \ {b}]
   /\ fresh' = [fresh EXCEPT ![r] = @ \cup {b}]
   /\ res' = "commit"
-  /\ UNCHANGED <<have, trk, hub, hubnew, listed, indexed, size>>
+  /\ UNCHANGED <<have, trk, hub, hubnew, listed, indexed, size, made>>
 
 CPush(r) ==
   /\ hub' = hub \cup have[r]
   /\ trk' = [trk EXCEPT ![r] = @ \cup have[r]]
   /\ hubnew' = [x \in Replica |-> IF x = r THEN hubnew[x] ELSE hubnew[x] \cup (have[r] \cap have[x])]
   /\ res' = "push"
-  /\ UNCHANGED <<have, staged, listed, indexed, fresh, size>>
+  /\ UNCHANGED <<have, staged, listed, indexed, fresh, size, made>>
 
 (* pull = fetch + merge of every remote-tracking entity; every new or updated bug must become visible: excerpt, index
    document and instance are refreshed from the merged history *)
@@ -83,7 +86,7 @@ CPull(r) ==
   /\ fresh' = [fresh EXCEPT ![r] = @ \cup trk'[r]]
   /\ hubnew' = [hubnew EXCEPT ![r] = {}]
   /\ res' = "pull"
-  /\ UNCHANGED <<hub, staged, size>>
+  /\ UNCHANGED <<hub, staged, size, made>>
 
 CRemove(r, b) ==
   /\ b \in listed[r]
@@ -94,19 +97,19 @@ CRemove(r, b) ==
   /\ staged' = [staged EXCEPT ![r] = @ \ {b}]
   /\ fresh' = [fresh EXCEPT ![r] = @ \ {b}]
   /\ res' = "remove"
-  /\ UNCHANGED <<hub, hubnew, size>>
+  /\ UNCHANGED <<hub, hubnew, size, made>>
 
 (* resolving under a small cache size evicts clean instances; an evicted and re-read instance is fresh by construction *)
 CResolveAll(r, n) ==
   /\ size' = [size EXCEPT ![r] = n]
   /\ res' = "resolve"
-  /\ UNCHANGED <<have, trk, hub, hubnew, staged, listed, indexed, fresh>>
+  /\ UNCHANGED <<have, trk, hub, hubnew, staged, listed, indexed, fresh, made>>
 
 (* close and reopen: excerpts and index are persisted; loaded instances are dropped; nothing staged survives a close *)
 CReopen(r) ==
   /\ Quiescent(r)
   /\ res' = "reopen"
-  /\ UNCHANGED <<have, trk, hub, hubnew, staged, listed, indexed, fresh, size>>
+  /\ UNCHANGED <<have, trk, hub, hubnew, staged, listed, indexed, fresh, size, made>>
 
 (* ---- C11 ---- *)
 CacheAgrees ==
